@@ -35,6 +35,10 @@ def spec_adv(d):
 
 def _inputs(kind, d, has_t):
     if kind == 'PINN':
+        if has_t == 'scalar':
+            import numpy as np
+            from ..alg import AT
+            return AT((), np.array(Poly.atom(('T', frozenset())), dtype=object)), pt(d)
         return (tm() if has_t else None), pt(d)
     return (batch_t() if has_t else None), batch_x(d)
 
@@ -75,10 +79,12 @@ def run(chk):
         return where_of(w, MOD, n) if n is not None else MOD
 
     for d in dims:
-        for has_t in (False, True):
+        for has_t in (False, True, 'scalar'):
             et = 'nonstatio_PDE' if has_t else 'statio_PDE'
             cfg = {"d": d, "time": has_t}
             for kind, suffix in (('PINN', '_rev'), ('SPINN', '_fwd')):
+                if has_t == 'scalar' and kind == 'SPINN':
+                    continue   # a separable network takes a column of times; a 0-d time is a PINN input only
                 t, x = _inputs(kind, d, has_t)
                 gax = _grid_axes(d, has_t) if kind == 'SPINN' else ()
                 # divergence
